@@ -74,6 +74,19 @@ func Parse(data string) (License, error) {
 	}
 }
 
+// validSliceLengths checks that the buffer starts with n byte slices, each prefixed with
+// its length as a varint, which fit into the buffer.
+func validSliceLengths(raw []byte, n int) bool {
+	for i := 0; i < n; i++ {
+		size, read := binary.Uvarint(raw)
+		if read <= 0 || size > uint64(len(raw)-read) {
+			return false
+		}
+		raw = raw[read+int(size):]
+	}
+	return true
+}
+
 // RandN generates a crypto-random N bytes.
 func randN(n int) []byte {
 	raw := make([]byte, n)
